@@ -1,4 +1,4 @@
-import GoSquare.Properties.C07
+import GoSquare.Proofs.C07Core
 import GoSquare.Proofs.StableSort
 import GoSquare.Proofs.BuildSquare
 import GoSquare.Proofs.C04Core
@@ -425,5 +425,234 @@ theorem layout_eq_squareOf (thr : Nat) (ht : 1 ≤ thr) (N : List Bytes) (P : Li
   rw [hlen, if_neg (by omega), if_neg (by omega)]
 
 theorem layout_empty (thr : Nat) : Spec.layout thr [] [] = some [paddingShare tailPaddingNamespace 0] := rfl
+
+/-! ### (e) `Build` and `Construct` are `Spec.build` and `Spec.construct` -/
+
+theorem closedEstimate_pos (thr : Nat) (N : List Bytes) (B : List BlobTx) (hne : ¬ (N = [] ∧ B = [])) :
+    1 ≤ closedEstimate thr N B := by
+  have e1 : (sizeOf (N.map (fun t => unitBytes t.length)).sum = 0) ↔ N = [] := by
+    rw [C07.sizeOf_eq_zero]; exact C07.unit_sum_eq_zero (fun t : Bytes => t.length) N
+  have e2 : (sizeOf (B.map (fun t => unitBytes (worstLen t))).sum = 0) ↔ B = [] := by
+    rw [C07.sizeOf_eq_zero, C07.unit_sum_eq_zero worstLen]
+  unfold closedEstimate
+  rcases Nat.eq_zero_or_pos (sizeOf (N.map (fun t => unitBytes t.length)).sum) with z1 | z1
+  · rcases Nat.eq_zero_or_pos (sizeOf (B.map (fun t => unitBytes (worstLen t))).sum) with z2 | z2
+    · exact absurd ⟨e1.mp z1, e2.mp z2⟩ hne
+    · omega
+  · omega
+
+theorem pow2_of_validConfig (max : Nat) (h : Spec.validConfig max = true) : C15.Pow2 max := by
+  show Nat.isPowerOfTwo max
+  rw [← Nat.ne_zero_and_sub_one_eq_zero_iff_isPowerOfTwo]
+  simpa [Spec.validConfig] using h
+
+theorem decOK_of_decValid (dec : Bytes → Decoded) (hdec : DecValid dec) : C07.DecOK dec :=
+  fun t bt h b hb => blobOK_of_valid b (hdec t bt h b hb)
+
+/-- the closed-form square of the kept transactions is the specification's layout of them -/
+theorem layout_of_isSquareOf (dec : Bytes → Decoded) (hdec : DecValid dec) (thr : Nat) (ht : 1 ≤ thr)
+    (max : Nat) (hpow : C15.Pow2 max) (hsz : 478 * (max * max) < 4294967296)
+    (N bl : List Bytes) (hbl : ∀ r ∈ bl, dec r = .blobTx (decB dec r))
+    (hfit : closedEstimate thr N (bl.map (decB dec)) ≤ max * max)
+    (sq : List Bytes) (h : IsSquareOf dec thr N bl sq) :
+    Spec.layout thr N (bl.map (C07.toP dec)) = some sq := by
+  rcases h with ⟨hN, hb, hs⟩ | ⟨hne, hs, g1, g2, _⟩
+  · subst hN hb hs; rfl
+  · have hB : (bl.map (C07.toP dec)).map StableSort.toB = bl.map (decB dec) := C07.toB_toP dec bl
+    have hv : ∀ p ∈ bl.map (C07.toP dec), ∀ b ∈ p.blobs, b.BlobValid := by
+      intro p hp b hb
+      obtain ⟨r, hr, rfl⟩ := List.mem_map.mp hp
+      exact hdec r _ (hbl r hr) b hb
+    have hne' : ¬ (N = [] ∧ bl.map (decB dec) = []) := by
+      intro hc; exact hne ⟨hc.1, by simpa using hc.2⟩
+    have hne'' : ¬ (N = [] ∧ bl.map (C07.toP dec) = []) := by
+      intro hc; exact hne ⟨hc.1, by simpa using hc.2⟩
+    have hpos := closedEstimate_pos thr N _ hne'
+    have h52 : closedEstimate thr N (bl.map (decB dec)) ≤ 2 ^ 52 := by
+      have : (2:Nat) ^ 52 = 4503599627370496 := by decide
+      omega
+    have hle : blobMinSquareSize (closedEstimate thr N (bl.map (decB dec))) ≤ max :=
+      (C15.minSquare_least _ hpos h52).2.2 max hpow hfit
+    have hss : blobMinSquareSize (closedEstimate thr N (bl.map (decB dec))) *
+        blobMinSquareSize (closedEstimate thr N (bl.map (decB dec))) < 4294967296 := by
+      have := Nat.mul_le_mul hle hle
+      omega
+    have := layout_eq_squareOf thr ht N (bl.map (C07.toP dec)) hv hne''
+      (by rw [hB]; exact h52) (by rw [hB]; exact g1) (by rw [hB]; exact g2) (by rw [hB]; exact hss)
+    rw [hB] at this
+    rw [this, hs]
+
+theorem map_raw_toP (dec : Bytes → Decoded) (bl : List Bytes) : (bl.map (C07.toP dec)).map (·.raw) = bl := by
+  rw [List.map_map]
+  exact (List.map_congr_left (fun r _ => rfl)).trans (List.map_id' bl)
+
+/-- **C07, `Build`.** Whenever `Build` succeeds, its square and its kept transactions are exactly
+    those of the specification `Spec.build` (greedy selection by the closed-form estimate, then
+    `Spec.layout`). -/
+theorem build_eq_spec (dec : Bytes → Decoded) (hdec : DecValid dec) (txs : List Bytes) (max thr : Nat)
+    (ht : 1 ≤ thr) (hcfg : Spec.validConfig max = true) (hsz : 478 * (max * max) < 4294967296)
+    (sq kept : List Bytes) (h : build dec txs max thr = .ok (sq, kept)) :
+    Spec.build dec txs max thr = some (sq, kept) := by
+  have hdok := decOK_of_decValid dec hdec
+  have hpow := pow2_of_validConfig max hcfg
+  unfold build at h
+  obtain ⟨b0, hnew, h⟩ := res_bind_ok' h
+  obtain ⟨⟨b, n, bl⟩, hloop, h⟩ := res_bind_ok' h
+  obtain ⟨⟨b2, sq2⟩, hexp, h⟩ := res_bind_ok' h
+  simp only [Except.ok.injEq, Prod.mk.injEq] at h
+  obtain ⟨rfl, rfl⟩ := h
+  obtain ⟨hk0, ht0, hm0⟩ := kept_new max thr b0 hnew
+  obtain ⟨hk, hthr, hmx, hbl, hn, _, _⟩ := buildLoop_spec dec txs b0 [] [] b n bl
+    (by simpa using hk0) (by simp) (by simp) hloop
+  have hsel := C07.select_eq dec hdok thr ht txs b0 [] [] b n bl (by simpa using hk0) ht0 (by simp) hloop
+  rw [hm0] at hsel
+  simp only [List.map_nil] at hsel
+  have hbthr : b.thr = thr := by rw [hthr, ht0]
+  have hbmax : b.maxSquareSize = max := by rw [hmx, hm0]
+  have hfit : closedEstimate thr n (bl.map (decB dec)) ≤ max * max := by
+    rw [← hbthr, ← hbmax]; exact hk.fit
+  have hsq : IsSquareOf dec thr n bl sq2 := by
+    rw [← hbthr]
+    exact isSquareOf_of_export dec hdec b n bl hk hbl (by rw [hbmax]; exact hsz) b2 sq2 hexp
+  have hlay := layout_of_isSquareOf dec hdec thr ht max hpow hsz n bl hbl hfit sq2 hsq
+  unfold Spec.build
+  rw [hcfg, hsel]
+  simp only [Bool.not_true, Bool.false_eq_true, if_false]
+  rw [hlay, map_raw_toP]
+  rfl
+
+/-- `Spec.select` keeps every transaction `Construct`'s transaction loop accepts -/
+theorem select_all (dec : Bytes → Decoded) (hdec : C07.DecOK dec) (thr : Nat) (ht : 1 ≤ thr) :
+    ∀ (txs : List Bytes) (b : Builder) (seen : Bool) (n bl : List Bytes) (b' : Builder) (n' bl' : List Bytes),
+    Kept b n (bl.map (decB dec)) → b.thr = thr → (∀ r ∈ bl, dec r = .blobTx (decB dec r)) →
+    appendAll dec txs b seen = .ok b' →
+    txs = n' ++ bl' → (∀ r ∈ n', dec r = .normal) → (∀ r ∈ bl', dec r = .blobTx (decB dec r)) →
+    Spec.select dec b.maxSquareSize thr txs n (bl.map (C07.toP dec)) =
+      some (n ++ n', (bl ++ bl').map (C07.toP dec))
+  | [], b, seen, n, bl, b', n', bl', _, _, _, _, e, _, _ => by
+    obtain ⟨hn', hbl'⟩ := List.append_eq_nil_iff.mp e.symm
+    subst hn' hbl'
+    simp [Spec.select]
+  | t :: rest, b, seen, n, bl, b', n', bl', hk, hthr, hb, h, e, hn', hbl' => by
+    rw [appendAll] at h
+    rw [Spec.select]
+    cases hd : dec t with
+    | badBlobTx => rw [hd] at h; cases h
+    | normal =>
+      rw [hd] at h
+      simp only at h ⊢
+      cases n' with
+      | nil =>
+        exfalso
+        simp only [List.nil_append] at e
+        have := hbl' t (by rw [← e]; simp)
+        rw [hd] at this; cases this
+      | cons t' n'' =>
+        simp only [List.cons_append, List.cons.injEq] at e
+        obtain ⟨rfl, e⟩ := e
+        by_cases hs : seen = true
+        · rw [if_pos hs] at h; cases h
+        · rw [if_neg hs] at h
+          obtain ⟨hiff, hacc, _⟩ := appendTx_spec b n (bl.map (decB dec)) t hk
+          rw [C07.estimate_eq thr ht _ _ (C07.toP_ok dec hdec bl hb), C07.toB_toP]
+          rw [hthr] at hiff
+          by_cases ha : (b.appendTx t).2 = true
+          · obtain ⟨hk1, ht1, hm1⟩ := hacc ha
+            rw [ha] at h
+            simp only [if_true] at h
+            rw [if_pos (hiff.mp ha), ← hm1]
+            have := select_all dec hdec thr ht rest _ false (n ++ [t]) bl b' n'' bl' hk1 (by rw [ht1, hthr]) hb h e
+              (fun r hr => hn' r (by simp [hr])) hbl'
+            rw [this, List.append_assoc]; rfl
+          · have ha' : (b.appendTx t).2 = false := by simpa using ha
+            rw [ha'] at h
+            simp at h
+    | blobTx bt =>
+      rw [hd] at h
+      simp only at h ⊢
+      have hdb : decB dec t = bt := by simp [decB, hd]
+      cases n' with
+      | cons t' n'' =>
+        exfalso
+        simp only [List.cons_append, List.cons.injEq] at e
+        have := hn' t' (by simp)
+        rw [← e.1, hd] at this; cases this
+      | nil =>
+        simp only [List.nil_append] at e
+        subst e
+        obtain ⟨hiff, hacc, _⟩ := appendBlobTx_spec b n (bl.map (decB dec)) bt hk
+        have hq : bl.map (C07.toP dec) ++ [({ raw := t, tx := bt.tx, blobs := bt.blobs } : Spec.PTx)] =
+            (bl ++ [t]).map (C07.toP dec) := by
+          rw [List.map_append, List.map_cons, List.map_nil]; simp only [C07.toP, hdb]
+        have hb1 : ∀ r ∈ bl ++ [t], dec r = .blobTx (decB dec r) := by
+          intro r hr; rcases List.mem_append.mp hr with hr | hr
+          · exact hb r hr
+          · simp at hr; rw [hr, hdb]; exact hd
+        rw [hq, C07.estimate_eq thr ht _ _ (C07.toP_ok dec hdec _ hb1), C07.toB_toP, List.map_append,
+          List.map_cons, List.map_nil, hdb]
+        rw [hthr] at hiff
+        by_cases ha : (b.appendBlobTx bt).2 = true
+        · obtain ⟨hk1, ht1, hm1⟩ := hacc ha
+          rw [ha] at h
+          simp only [if_true] at h
+          rw [if_pos (hiff.mp ha), ← hm1]
+          have hk1' : Kept (b.appendBlobTx bt).1 n ((bl ++ [t]).map (decB dec)) := by
+            rw [List.map_append, List.map_cons, List.map_nil, hdb]; exact hk1
+          have := select_all dec hdec thr ht rest _ true n (bl ++ [t]) b' [] rest hk1' (by rw [ht1, hthr]) hb1 h
+            rfl (by simp) (fun r hr => hbl' r (by simp [hr]))
+          rw [this, List.append_assoc]; rfl
+        · have ha' : (b.appendBlobTx bt).2 = false := by simpa using ha
+          rw [ha'] at h
+          simp at h
+
+/-- ordinary transactions before blob transactions: the list of kinds is sorted -/
+theorem kinds_sorted (k : Bytes → Nat) (N bl : List Bytes) (h0 : ∀ r ∈ N, k r = 0) (h1 : ∀ r ∈ bl, k r = 1) :
+    ((N ++ bl).map k).mergeSort (· ≤ ·) = (N ++ bl).map k := by
+  apply List.mergeSort_of_pairwise
+  rw [List.pairwise_map, List.pairwise_append]
+  refine ⟨?_, ?_, ?_⟩
+  · exact List.pairwise_of_forall_mem_list (fun a ha c hc => by rw [h0 a ha, h0 c hc]; rfl)
+  · exact List.pairwise_of_forall_mem_list (fun a ha c hc => by rw [h1 a ha, h1 c hc]; rfl)
+  · intro a ha c hc; rw [h0 a ha, h1 c hc]; rfl
+
+/-- **C07, `Construct`.** Whenever `Construct` succeeds, its square is exactly the one the
+    specification `Spec.construct` returns. -/
+theorem construct_eq_spec (dec : Bytes → Decoded) (hdec : DecValid dec) (txs : List Bytes) (max thr : Nat)
+    (ht : 1 ≤ thr) (hcfg : Spec.validConfig max = true) (hsz : 478 * (max * max) < 4294967296)
+    (sq : List Bytes) (h : construct dec txs max thr = .ok sq) :
+    Spec.construct dec txs max thr = some sq := by
+  have hdok := decOK_of_decValid dec hdec
+  have hpow := pow2_of_validConfig max hcfg
+  unfold construct Builder.newWithTxs at h
+  obtain ⟨b, hb, h⟩ := res_bind_ok' h
+  obtain ⟨b0, hnew, hall⟩ := res_bind_ok' hb
+  obtain ⟨⟨b2, sq2⟩, hexp, h⟩ := res_bind_ok' h
+  simp only [Except.ok.injEq] at h
+  subst h
+  obtain ⟨hk0, ht0, hm0⟩ := kept_new max thr b0 hnew
+  obtain ⟨n, bl, e, hk, hthr, hmx, hbl, hn⟩ := appendAll_spec dec txs b0 false [] [] b
+    (by simpa using hk0) (by simp) (by simp) hall
+  simp only [List.nil_append] at hk hbl hn
+  have hsel := select_all dec hdok thr ht txs b0 false [] [] b n bl (by simpa using hk0) ht0 (by simp) hall e hn hbl
+  rw [hm0] at hsel
+  simp only [List.map_nil, List.nil_append] at hsel
+  have hbthr : b.thr = thr := by rw [hthr, ht0]
+  have hbmax : b.maxSquareSize = max := by rw [hmx, hm0]
+  have hfit : closedEstimate thr n (bl.map (decB dec)) ≤ max * max := by
+    rw [← hbthr, ← hbmax]; exact hk.fit
+  have hsq : IsSquareOf dec thr n bl sq2 := by
+    rw [← hbthr]
+    exact isSquareOf_of_export dec hdec b n bl hk hbl (by rw [hbmax]; exact hsz) b2 sq2 hexp
+  have hlay := layout_of_isSquareOf dec hdec thr ht max hpow hsz n bl hbl hfit sq2 hsq
+  unfold Spec.construct
+  rw [hcfg, hsel]
+  simp only [Bool.not_true, Bool.false_eq_true, if_false]
+  split
+  · rename_i hc
+    exfalso
+    apply hc
+    rw [e]
+    exact (kinds_sorted _ n bl (fun r hr => by simp only [hn r hr]) (fun r hr => by simp only [hbl r hr])).symm
+  · rw [if_neg (by rw [e]; simp), hlay]
 
 end GoSquare.SpecLayout
